@@ -15,8 +15,10 @@ _t("C01", "Every real rhs return (1D and 2D) observed during thousands of genera
 _t("C02", "Every numflux dispatch is observed; consistency, mirror symmetry (re-invocation of the same real function on the mirrored "
           "pair) and upwinding are asserted per face pair over all regimes incl. sonic/stagnation/1e6 ratios.",
    "online metamorphic monitor on numflux (hook) over generated state pairs and real face traffic")
-_t("C03", "Uniform states with matching boundary pairs are pushed through the real rhs and all integrators; residual/drift must vanish "
-          "to conditioned round-off.", "runtime oracle on rhs/solve results for generated fixed-point configurations")
+_t("C03", "Uniform states with matching boundary pairs are pushed through the real rhs and all integrators; the residual must vanish to "
+          "round-off (+ eps/M for total-pressure conditions) and the drift of a solve to round-off times the amplification the same "
+          "solve applies to a 1e-12 perturbed twin (measured on demand).  Known finding D21: the pressure-extrapolating total-pressure "
+          "closures make low-Mach uniform streams unstable fixed points.", "runtime oracle on rhs/solve results for generated fixed-point configurations, with a perturbed-twin amplification monitor")
 _t("C05", "The real step() of each explicit integrator is driven with recording right-hand sides; the tableau it actually applies is "
           "extracted from the recorded stage arguments and checked against order conditions, stage abscissae, published stability "
           "polynomials and the SSP criterion; RK-ness re-checked on random nonlinear and real flowdyn right-hand sides.",
